@@ -179,3 +179,155 @@ Proof.
   - apply (swap0_In rs0 b). rewrite E. right. exact Hr.
 Qed.
 End Stog.
+
+(* ------------------------------------------------------------------ *)
+(* uniq / gather_boundaries (both copies: allocation.py's and die.py's) *)
+(* ------------------------------------------------------------------ *)
+From FrameModel Require Die.BoundariesFacts.
+Section Bounds.
+Variables lo hi e1 e2 : Qc.
+Hypothesis B1 : band lo hi e1.
+Hypothesis B2 : band lo hi e2.
+
+Definition PW (L : list Qc) : Prop := forall a b, In a L -> In b L -> gapok lo hi (a - b) = true.
+Lemma robust_coords_PW L : robust_coords lo hi L = true -> PW L.
+Proof.
+  unfold robust_coords, PW. intros H a b Ha Hb. rewrite forallb_forall in H. specialize (H a Ha).
+  rewrite forallb_forall in H. exact (H b Hb).
+Qed.
+
+Lemma al_dedup_eq L : PW L -> forall l last, In last L -> incl l L ->
+  AL.dedup e1 last l = AL.dedup e2 last l.
+Proof.
+  intros P. induction l as [|v r IH]; intros last Hl Hi; [reflexivity|]. cbn [AL.dedup].
+  assert (Hv : In v L) by (apply Hi; left; reflexivity).
+  assert (Hr : incl r L) by (intros x Hx; apply Hi; right; exact Hx).
+  rewrite (gap_ltb_left lo hi last v e1 e2 (P v last Hv Hl) B1 B2).
+  destruct (Qcltb (last + e2) v); [f_equal|]; apply IH; assumption.
+Qed.
+Lemma al_insert_in x l v : In v (AL.insert_sorted x l) -> v = x \/ In v l.
+Proof.
+  induction l as [|y r IH]; cbn [AL.insert_sorted]; [intros [H|[]]; left; symmetry; exact H|].
+  destruct (Qcleb x y).
+  - intros [H|H]; [left; symmetry; exact H|right; exact H].
+  - intros [H|H]; [right; left; exact H|]. destruct (IH H) as [E|E]; [left; exact E|right; right; exact E].
+Qed.
+Lemma al_sortq_in l v : In v (AL.sortq l) -> In v l.
+Proof.
+  induction l as [|x r IH]; cbn; [auto|]. intro H. apply al_insert_in in H. destruct H as [->|H]; auto.
+Qed.
+Theorem eps_insensitive_uniq l : robust_coords lo hi l = true -> AL.uniq e1 l = AL.uniq e2 l.
+Proof.
+  intro R. apply robust_coords_PW in R. unfold AL.uniq. destruct (AL.sortq l) as [|v r] eqn:E; [reflexivity|].
+  f_equal. apply (al_dedup_eq l R).
+  - apply al_sortq_in. rewrite E. left. reflexivity.
+  - intros x Hx. apply al_sortq_in. rewrite E. right. exact Hx.
+Qed.
+Theorem eps_insensitive_gather_boundaries rs : robust_bounds lo hi rs = true ->
+  AL.gather_boundaries e1 rs = AL.gather_boundaries e2 rs.
+Proof.
+  unfold robust_bounds. intro R. apply andb_true_iff in R. destruct R as [Rx Ry]. unfold AL.gather_boundaries.
+  rewrite (eps_insensitive_uniq _ Rx), (eps_insensitive_uniq _ Ry). reflexivity.
+Qed.
+
+(* die.py's copy *)
+Lemma db_dedup_from_eq L : PW L -> forall l last, In last L -> incl l L ->
+  DB.dedup_from e1 last l = DB.dedup_from e2 last l.
+Proof.
+  intros P. induction l as [|v r IH]; intros last Hl Hi; [reflexivity|]. cbn [DB.dedup_from].
+  assert (Hv : In v L) by (apply Hi; left; reflexivity).
+  assert (Hr : incl r L) by (intros x Hx; apply Hi; right; exact Hx).
+  rewrite (gap_ltb_left lo hi last v e1 e2 (P v last Hv Hl) B1 B2).
+  destruct (Qcltb (last + e2) v); [f_equal|]; apply IH; assumption.
+Qed.
+Lemma db_dedup_sort_eq l : robust_coords lo hi l = true -> DB.dedup e1 (DB.sort l) = DB.dedup e2 (DB.sort l).
+Proof.
+  intro R. apply robust_coords_PW in R. unfold DB.dedup. destruct (DB.sort l) as [|v r] eqn:E; [reflexivity|].
+  f_equal. apply (db_dedup_from_eq l R).
+  - apply BoundariesFacts.sort_in. rewrite E. left. reflexivity.
+  - intros x Hx. apply BoundariesFacts.sort_in. rewrite E. right. exact Hx.
+Qed.
+Theorem eps_insensitive_die_boundaries rs : robust_bounds lo hi rs = true ->
+  DB.gather_boundaries e1 rs = DB.gather_boundaries e2 rs.
+Proof.
+  unfold robust_bounds. intro R. apply andb_true_iff in R. destruct R as [Rx Ry].
+  unfold DB.gather_boundaries, DB.xbounds, DB.ybounds, DB.xcoords, DB.ycoords.
+  rewrite (db_dedup_sort_eq _ Rx), (db_dedup_sort_eq _ Ry). reflexivity.
+Qed.
+End Bounds.
+
+(* ------------------------------------------------------------------ *)
+(* Allocation(...), refine, uniform_refinement_depth, griddify          *)
+(* ------------------------------------------------------------------ *)
+Section AllocOps.
+Variables lo hi alo ahi e1 e2 a1 a2 : Qc.
+Hypothesis B1 : band lo hi e1.
+Hypothesis B2 : band lo hi e2.
+Hypothesis C1 : band alo ahi a1.
+Hypothesis C2 : band alo ahi a2.
+
+Definition RP (rs : list Rect) : Prop :=
+  forall r s, In r rs -> In s rs -> robust_overlap alo ahi r s = true.
+Lemma robust_pairs_RP rs : robust_pairs alo ahi rs = true -> RP rs.
+Proof.
+  unfold robust_pairs, RP. intros H r s Hr Hs. rewrite forallb_forall in H. specialize (H r Hr).
+  rewrite forallb_forall in H. exact (H s Hs).
+Qed.
+Lemma ov_eq r s : robust_overlap alo ahi r s = true -> overlap a1 r s = overlap a2 r s.
+Proof. exact (eps_insensitive_overlap alo ahi a1 a2 r s C1 C2). Qed.
+
+Lemma no_overlap_with_eq L r l : RP L -> In r L -> incl (map AL.crect l) L ->
+  AL.no_overlap_with a1 r l = AL.no_overlap_with a2 r l.
+Proof.
+  intros P Hr. induction l as [|c rest IH]; intro Hi; [reflexivity|]. cbn [AL.no_overlap_with].
+  rewrite (ov_eq r (AL.crect c)); [|apply P; [exact Hr|apply Hi; left; reflexivity]].
+  rewrite IH; [reflexivity|]. intros x Hx. apply Hi. right. exact Hx.
+Qed.
+Lemma no_overlap_eq L l : RP L -> incl (map AL.crect l) L -> AL.no_overlap a1 l = AL.no_overlap a2 l.
+Proof.
+  intros P. induction l as [|c rest IH]; intro Hi; [reflexivity|]. cbn [AL.no_overlap].
+  assert (Hr : incl (map AL.crect rest) L) by (intros x Hx; apply Hi; right; exact Hx).
+  rewrite (no_overlap_with_eq L (AL.crect c) rest P (Hi _ (or_introl eq_refl)) Hr), (IH Hr). reflexivity.
+Qed.
+
+Theorem eps_insensitive_mk_allocation cells : robust_pairs alo ahi (map AL.crect cells) = true ->
+  AL.mk_allocation a1 cells = AL.mk_allocation a2 cells.
+Proof.
+  intro R. apply robust_pairs_RP in R. unfold AL.mk_allocation. destruct cells as [|c r]; [reflexivity|].
+  rewrite (no_overlap_eq _ (c :: r) R (incl_refl _)). reflexivity.
+Qed.
+
+(* refine: the cells are cut without looking at a tolerance; the constructor then checks the new cells *)
+Theorem eps_insensitive_refine t levels cells :
+  (forall new, AL.refine_cells t levels cells = Some new -> robust_pairs alo ahi (map AL.crect new) = true) ->
+  AL.refine a1 t levels cells = AL.refine a2 t levels cells.
+Proof.
+  intro H. unfold AL.refine. destruct levels; [reflexivity|].
+  destruct (AL.refine_cells t (S levels) cells) as [new|] eqn:E; [|reflexivity].
+  apply eps_insensitive_mk_allocation. apply H. reflexivity.
+Qed.
+Theorem eps_insensitive_uniform cells :
+  (forall new, AL.uniform_cells cells = Some new -> robust_pairs alo ahi (map AL.crect new) = true) ->
+  AL.uniform_refinement_depth a1 cells = AL.uniform_refinement_depth a2 cells.
+Proof.
+  intro H. unfold AL.uniform_refinement_depth. destruct (Nat.eqb _ _); [reflexivity|].
+  destruct (AL.uniform_cells cells) as [new|] eqn:E; [|reflexivity].
+  apply eps_insensitive_mk_allocation. apply H. reflexivity.
+Qed.
+
+(* griddify: the boundaries are gathered with the distance tolerance, the cut cells checked with the area one *)
+Lemma griddify_cells_eq q cells : robust_bounds lo hi (map AL.crect cells) = true ->
+  AL.griddify_cells e1 q cells = AL.griddify_cells e2 q cells.
+Proof.
+  intro R. unfold AL.griddify_cells.
+  rewrite (eps_insensitive_gather_boundaries lo hi e1 e2 B1 B2 _ R). reflexivity.
+Qed.
+Theorem eps_insensitive_griddify q cells : robust_bounds lo hi (map AL.crect cells) = true ->
+  (forall new, AL.griddify_cells e2 q cells = Some new -> robust_pairs alo ahi (map AL.crect new) = true) ->
+  AL.griddify e1 a1 q cells = AL.griddify e2 a2 q cells.
+Proof.
+  intros R H. unfold AL.griddify. rewrite (griddify_cells_eq q cells R).
+  destruct (AL.griddify_cells e2 q cells) as [new|] eqn:E; [|reflexivity].
+  apply eps_insensitive_mk_allocation. apply H. reflexivity.
+Qed.
+End AllocOps.
